@@ -154,6 +154,8 @@ func runC15(r *Run) {
 	scope[p.MustFn("app.doEthTransitions")] = true
 	checkSelectorDisciplineAs(r, "C15.selector", sels, scope)
 	checkRefundParser(r)
+	checkVotePersisted(r)
+	checkTrackerIdentity(r)
 	r.Floor("C15.", 40)
 }
 
